@@ -106,8 +106,11 @@ func (d *deepCopier) deepCopyIface(in, out reflect.Value) {
 		if inElem.IsNil() {
 			return
 		}
-		out.Set(reflect.MakeMapWithSize(inElem.Type(), inElem.Len()))
-		d.deepCopy(inElem, out.Elem())
+		// Copy into a settable temporary: the boxed value itself cannot
+		// be set, which kept deepCopyMap from using its memo.
+		newMap := reflect.New(inElem.Type()).Elem()
+		d.deepCopyMap(inElem, newMap)
+		out.Set(newMap)
 		return
 	case reflect.Slice:
 		if inElem.IsNil() {
